@@ -67,14 +67,14 @@ class InvDomain(GroupDomain):
         if v.is_const():
             c = v.const_value()
             return c >> 1, c & 1
-        key = repr(v)
+        key = v
         if key in self.halves:
             return self.halves[key]
         h = self.fresh_scalar("half", 0, 1 << 384)
         opts = [bit for bit in (0, 1) if self._feasible([(v - h * 2 - bit, "==0")])]
         if not opts:
             raise Abandon()
-        bit = opts[0] if len(opts) == 1 else I.path.decide(("parity", key[:80]), (0, 1))
+        bit = opts[0] if len(opts) == 1 else I.path.decide(("parity", repr(key)[:80]), (0, 1))
         self.constraints.append((v - h * 2 - bit, "==0"))
         self.halves[key] = (h, bit)
         return h, bit
